@@ -106,7 +106,7 @@ pub fn check(c: &Case, ctx: &mut Ctx) -> Result<(), Failure> {
         let tail: Vec<&Inp> = c.history.iter().rev().filter_map(|o| if let HOp::Next(i) = o { Some(i) } else { None }).take(c.continuation.len().min(w)).collect();
         tail.is_empty() || tail.iter().rev().zip(c.continuation.iter()).any(|(x, y)| x.bar.c.to_bits() != y.bar.c.to_bits())
     };
-    if since_reset >= w + 1 && c.continuation.len() >= w + 2 && differs {
+    if since_reset >= w.saturating_add(1) && c.continuation.len() >= w.saturating_add(2) && differs {
         ctx.nontrivial(fp);
         ctx.label("nontrivial");
         if nonfinite {
@@ -152,7 +152,20 @@ fn history_strategy(n: usize, long: bool) -> BoxedStrategy<Vec<HOp>> {
         a.extend(b);
         a
     });
-    prop_oneof![3 => ordinary, 3 => special, 4 => full].boxed()
+    // a finite history on a much larger scale than the continuation (residue in running sums that a lazy
+    // reset leaves behind is invisible when history and continuation share a scale)
+    let scaled = (vec(inp_finite().prop_map(HOp::Next), (n + 1)..=(2 * n + 6)), prop_oneof![Just(1e9), Just(1e12), Just(1e15), Just(1e-9)]).prop_map(|(mut h, f)| {
+        for op in h.iter_mut() {
+            if let HOp::Next(i) = op {
+                i.bar.o *= f;
+                i.bar.h *= f;
+                i.bar.l *= f;
+                i.bar.c *= f;
+            }
+        }
+        h
+    });
+    prop_oneof![3 => ordinary, 3 => special, 4 => full, 2 => scaled].boxed()
 }
 
 fn strategy(cap: usize, long: bool) -> BoxedStrategy<Case> {
@@ -225,6 +238,30 @@ pub fn run(g: &mut Global) {
             let history: Vec<HOp> = (0..l.saturating_sub(d)).map(|_| HOp::Next(mk(&mut st))).collect();
             let continuation: Vec<Inp> = (0..n + 12).map(|_| mk(&mut st)).collect();
             Case { cfg: cfg_small(kind, n), history, continuation }
+        },
+        &check,
+    );
+    // allocation-free period arguments at the top of usize: reset must not recompute anything that overflows
+    const BIG: [usize; 4] = [1usize << 53, usize::MAX / 2 + 1, usize::MAX - 1, usize::MAX];
+    g.exhaustive(
+        "boundary_periods",
+        9 * 4 * 3,
+        &|i| {
+            let hl = (i % 3) as usize;
+            let b = BIG[((i / 3) % 4) as usize];
+            let cfg = match i / 12 {
+                0 => Cfg { kind: Kind::Ema, p: vec![b], m: X(0.0) },
+                1 => Cfg { kind: Kind::Rsi, p: vec![b], m: X(0.0) },
+                2 => Cfg { kind: Kind::Atr, p: vec![b], m: X(0.0) },
+                3 => Cfg { kind: Kind::Kc, p: vec![b], m: X(2.0) },
+                4 => Cfg { kind: Kind::Macd, p: vec![b, 26, 9], m: X(0.0) },
+                5 => Cfg { kind: Kind::Macd, p: vec![12, 26, b], m: X(0.0) },
+                6 => Cfg { kind: Kind::Ppo, p: vec![12, b, 9], m: X(0.0) },
+                7 => Cfg { kind: Kind::SlowStoch, p: vec![3, b], m: X(0.0) },
+                _ => Cfg { kind: Kind::Ema, p: vec![b - 1], m: X(0.0) },
+            };
+            let history: Vec<HOp> = (0..hl * 2).map(|j| HOp::Next(letter(1.0 + j as f64))).collect();
+            Case { cfg, history, continuation: [2.0, 3.0, 5.0, 4.0, 1.0, 6.0].iter().map(|&v| letter(v)).collect() }
         },
         &check,
     );
